@@ -18,6 +18,11 @@ Transformations (each preserves behaviour by construction):
   pop_drop      `if k in X: del X[k]` -> `X.pop(k, None)`
   guard_return  a function ending in `if c: A` -> `if not c: return` followed by A
   else_dedent   `if c: …; return  else: B` -> the else branch is dedented after the if
+  ifexp_split   `x = a if c else b` -> `if c: x = a  else: x = b`
+  aug_assign    `x = x | y` -> `x |= y`  (| & -)
+  early_continue a for-loop body ending in `if c: A` -> `if not c: continue` followed by A
+  extract_test  in a method, a side-effect free `if` test over self/parameters/globals moves into a new method returning it (two per method)
+  tuple_loop    two consecutive `if` statements differing in one `self.<attr>` place -> a loop over the tuple of the two places
 """
 
 import ast
@@ -236,6 +241,116 @@ class AliasFinal(ast.NodeTransformer):
         return fn
 
 
+class IfExpSplit(ast.NodeTransformer):
+    """`x = a if c else b` -> `if c: x = a  else: x = b` (single plain target)"""
+    def visit_Assign(self, n):
+        if len(n.targets) == 1 and isinstance(n.targets[0], ast.Name) and isinstance(n.value, ast.IfExp):
+            t = n.targets[0]
+            mk = lambda v: ast.copy_location(ast.Assign(targets=[ast.Name(id=t.id, ctx=ast.Store())], value=v), n)  # noqa: E731
+            return ast.copy_location(ast.If(test=n.value.test, body=[mk(n.value.body)], orelse=[mk(n.value.orelse)]), n)
+        return n
+
+
+class AugAssign(ast.NodeTransformer):
+    """`x = x | y` -> `x |= y` (name or attribute-of-name targets, operators whose in-place form is the same on ints/strs: | & + -)"""
+    def visit_Assign(self, n):
+        if len(n.targets) == 1 and isinstance(n.value, ast.BinOp) and isinstance(n.value.op, (ast.BitOr, ast.BitAnd, ast.Sub)) and _pure(n.targets[0]) \
+                and not isinstance(n.targets[0], (ast.Tuple, ast.Constant)) and ast.unparse(n.targets[0]) == ast.unparse(n.value.left):
+            return ast.copy_location(ast.AugAssign(target=n.targets[0], op=n.value.op, value=n.value.right), n)
+        return n
+
+
+class EarlyContinue(ast.NodeTransformer):
+    """a for-loop body ending in `if c: A` (no else) -> `if not c: continue` followed by A"""
+    def visit_For(self, n):
+        self.generic_visit(n)
+        last = n.body[-1]
+        if isinstance(last, ast.If) and not last.orelse and len(n.body) >= 1 and not n.orelse:
+            guard = ast.copy_location(ast.If(test=ast.UnaryOp(op=ast.Not(), operand=last.test), body=[ast.copy_location(ast.Continue(), last)], orelse=[]), last)
+            n.body = n.body[:-1] + [guard] + last.body
+        return n
+
+
+class ExtractTest(ast.NodeTransformer):
+    """In a method, `if <side-effect free test over self, parameters and globals>:` -> `if self._mt_<method>_<k>(<params>):` with the test as the
+    body of a new method of the class (the first two such tests of each method)."""
+    def visit_ClassDef(self, c):
+        new_methods = []
+        for fn in list(c.body):
+            if not isinstance(fn, ast.FunctionDef) or not fn.args.args or fn.args.args[0].arg != 'self' or fn.args.vararg or fn.args.kwarg:
+                continue
+            if any(isinstance(d, ast.Name) and d.id in ('staticmethod', 'classmethod', 'property') for d in fn.decorator_list):
+                continue
+            if any(isinstance(w, (ast.FunctionDef, ast.Lambda, ast.AsyncFunctionDef)) and w is not fn for w in ast.walk(fn)):
+                continue
+            params = [a.arg for a in fn.args.args + fn.args.kwonlyargs]
+            stored = {w.id for w in ast.walk(fn) if isinstance(w, ast.Name) and isinstance(w.ctx, (ast.Store, ast.Del))}
+            stored |= {a.name for w in ast.walk(fn) if isinstance(w, (ast.Import, ast.ImportFrom)) for a in w.names}
+            stored |= {w.name for w in ast.walk(fn) if isinstance(w, ast.ExceptHandler) and w.name}
+            k = 0
+            for w in ast.walk(fn):
+                if k >= 2:
+                    break
+                if isinstance(w, ast.If) and _side_effect_free(w.test) and isinstance(w.test, (ast.Compare, ast.BoolOp, ast.UnaryOp, ast.Attribute)):
+                    names = {x.id for x in ast.walk(w.test) if isinstance(x, ast.Name)}
+                    if names & (stored - set(params)) or (names & stored & set(params)):
+                        continue        # a local, or a parameter that is re-bound: the helper would need its current value — keep it simple
+                    if 'self' not in names:
+                        continue
+                    k += 1
+                    used = [p_ for p_ in params if p_ in names and p_ != 'self']
+                    hname = f"_mt_{c.name}_{fn.name}_{k}"
+                    h = ast.FunctionDef(name=hname, args=ast.arguments(posonlyargs=[], args=[ast.arg(arg='self')] + [ast.arg(arg=u) for u in used], kwonlyargs=[],
+                                        kw_defaults=[], defaults=[]), body=[ast.Return(value=copy.deepcopy(w.test))], decorator_list=[], type_params=[])
+                    new_methods.append(ast.copy_location(h, fn))
+                    w.test = ast.copy_location(ast.Call(func=ast.Attribute(value=ast.Name(id='self', ctx=ast.Load()), attr=hname, ctx=ast.Load()),
+                                                        args=[ast.Name(id=u, ctx=ast.Load()) for u in used], keywords=[]), w.test)
+        c.body.extend(new_methods)
+        return c
+
+
+class TupleLoop(ast.NodeTransformer):
+    """two consecutive `if` statements that differ only in one `self.<attr>` place -> one loop over the two places"""
+    def __init__(self):
+        self.k = 0
+
+    def _body(self, body):
+        out, i = [], 0
+        while i < len(body):
+            a = body[i]
+            b = body[i + 1] if i + 1 < len(body) else None
+            done = False
+            if isinstance(a, ast.If) and isinstance(b, ast.If) and not a.orelse and not b.orelse:
+                pa = {ast.unparse(w) for w in ast.walk(a) if isinstance(w, ast.Attribute) and isinstance(w.value, ast.Name) and w.value.id == 'self'}
+                pb = {ast.unparse(w) for w in ast.walk(b) if isinstance(w, ast.Attribute) and isinstance(w.value, ast.Name) and w.value.id == 'self'}
+                da, db = sorted(pa - pb), sorted(pb - pa)
+                stores = any(isinstance(w, ast.Attribute) and isinstance(w.ctx, (ast.Store, ast.Del)) for w in ast.walk(a))
+                jumps = any(isinstance(w, (ast.Break, ast.Continue, ast.Return, ast.Yield, ast.YieldFrom)) for w in ast.walk(a))
+                if len(da) == 1 and len(db) == 1 and not stores and not jumps:
+                    ta, tb = ast.unparse(a), ast.unparse(b)
+                    if re.sub(re.escape(da[0]) + r'\b', db[0], ta) == tb:
+                        self.k += 1
+                        var = f'place_{self.k}'
+                        new = ast.parse(re.sub(re.escape(da[0]) + r'\b', var, ta)).body[0]
+                        loop = ast.For(target=ast.Name(id=var, ctx=ast.Store()), iter=ast.Tuple(elts=[ast.parse(da[0], mode='eval').body, ast.parse(db[0], mode='eval').body],
+                                       ctx=ast.Load()), body=[new], orelse=[])
+                        out.append(ast.copy_location(loop, a))
+                        i += 2
+                        done = True
+            if not done:
+                out.append(a)
+                i += 1
+        return out
+
+    def generic_visit(self, n):
+        super().generic_visit(n)
+        for fld in ('body', 'orelse', 'finalbody'):
+            v = getattr(n, fld, None)
+            if isinstance(v, list) and v and isinstance(v[0], ast.stmt):
+                setattr(n, fld, self._body(v))
+        return n
+
+
 def transform(src_text, kind, final=None):
     tree = ast.parse(src_text)
     if kind == 'reformat':
@@ -260,13 +375,24 @@ def transform(src_text, kind, final=None):
         tree = GuardReturn().visit(tree)
     elif kind == 'else_dedent':
         tree = ElseDedent().visit(tree)
+    elif kind == 'ifexp_split':
+        tree = IfExpSplit().visit(tree)
+    elif kind == 'aug_assign':
+        tree = AugAssign().visit(tree)
+    elif kind == 'early_continue':
+        tree = EarlyContinue().visit(tree)
+    elif kind == 'extract_test':
+        tree = ExtractTest().visit(tree)
+    elif kind == 'tuple_loop':
+        tree = TupleLoop().visit(tree)
     else:
         raise ValueError(kind)
     ast.fix_missing_locations(tree)
     return ast.unparse(tree) + '\n'
 
 
-KINDS = ['reformat', 'invert_if', 'demorgan', 'swap_compare', 'nest_and', 'rename_locals', 'alias_final', 'flag_local', 'pop_drop', 'guard_return', 'else_dedent']
+KINDS = ['reformat', 'invert_if', 'demorgan', 'swap_compare', 'nest_and', 'rename_locals', 'alias_final', 'flag_local', 'pop_drop', 'guard_return', 'else_dedent',
+         'ifexp_split', 'aug_assign', 'early_continue', 'extract_test', 'tuple_loop']
 
 
 def anchor_files():
